@@ -16,13 +16,22 @@ class _Collect(logging.Handler):
     def __init__(self):
         super().__init__(level=logging.DEBUG)
         self.records = []
+        self.infos = []
 
     def emit(self, record):
         try:
             msg = record.getMessage()
         except Exception as e:           # formatting error inside gemato's log call
             msg = f'<log formatting failed: {e!r}>'
+        # gemato logs exception OBJECTS (logging.error(e)); keep what the contract exposes about them so that
+        # harnesses need not parse message wording
+        obj = record.msg if isinstance(record.msg, BaseException) else None
+        info = None
+        if obj is not None:
+            info = {'exc': type(obj).__name__, 'path': getattr(obj, 'path', None),
+                    'diff': [tuple(d) for d in getattr(obj, 'diff', [])] if hasattr(obj, 'diff') else None}
         self.records.append((record.levelname, msg))
+        self.infos.append(info)
 
 
 _handler = _Collect()
@@ -86,6 +95,7 @@ def lib_verify(root, top='Manifest', path='', init=None, **kw):
 def cli(argv, cwd=None):
     """Run gemato.cli.main(['gemato'] + argv) -> observation with 'log'."""
     _handler.records = []
+    _handler.infos = []
     _root.setLevel(logging.INFO)
     old = os.getcwd() if cwd else None
     out, err = io.StringIO(), io.StringIO()
@@ -98,6 +108,7 @@ def cli(argv, cwd=None):
         if old:
             os.chdir(old)
     o['log'] = list(_handler.records)
+    o['log_info'] = list(_handler.infos)     # parallel to o['log']: None or {'exc','path','diff'} of a logged exception
     o['stdout'] = out.getvalue()
     o['stderr'] = err.getvalue()
     if o['kind'] == 'ret':
